@@ -13,7 +13,7 @@ META = {
             'same triggers shadowed by a local definition must NOT freeze the module (so the oracle is not vacuous). non-trivial = '
             'the untainted variant of the program is changed by the same options; distinct by (program, option set)',
     'assumptions': ['the taint triggers are exactly those the property lists'],
-    'modelled_not_verified': ['taint detection (resolve_names) is not modelled in Lean; gating in minify() is a generated table checked by decide'],
+    'modelled_not_verified': ['taint detection is modelled in Lean in three parts tied by correspondence: names (PMV.Taint over the resolver model), import aliases and the only-declared rule (PMV.TaintSyntax); gating in minify() is a generated table checked by decide; that minify() combines the three as modelled is covered by the identical-AST oracle'],
 }
 
 TRIGGERS = {
@@ -94,8 +94,25 @@ CLASS_REBOUND = [
 ]
 
 
+# the trigger name is bound in an enclosing *class* body, which the scopes nested in it skip when they look a name up: a method,
+# lambda or comprehension of the class (or of a class nested in it) still reaches the builtin
+CLASS_SHADOW = [
+    'class OuterClass:\n    def {N}(self, argument_value):\n        return argument_value\n    class InnerClass:\n        def method_one(self, long_parameter):\n            local_value = long_parameter\n            return {N}("1"), local_value, local_value\n{P}',
+    'class OuterClass:\n    {N} = None\n    def method_one(self, long_parameter):\n        local_value = long_parameter\n        return {N}, local_value, local_value\n{P}',
+    'class OuterClass:\n    {N} = 1\n    class MiddleClass:\n        class InnerClass:\n            function_value = lambda self, long_parameter: ({N}, long_parameter, long_parameter)\n{P}',
+    'class OuterClass:\n    import os as {N}\n    class InnerClass:\n        values_list = [{N} for comp_item in range(2)]\n{P}',
+    'def outer_function():\n    class OuterClass:\n        {N} = 1\n        class InnerClass:\n            def method_one(self, long_parameter):\n                return {N}, long_parameter, long_parameter\n    return OuterClass\n{P}',
+    'class OuterClass:\n    class {N}:\n        pass\n    class InnerClass:\n        class InnermostClass:\n            async def method_one(self, long_parameter):\n                return {N}(), long_parameter, long_parameter\n{P}',
+    'class OuterClass:\n    for {N} in range(2):\n        pass\n    class InnerClass:\n        @staticmethod\n        def method_one(long_parameter, other_value=lambda inner_value: {N}):\n            return long_parameter, long_parameter\n{P}',
+]
+
+
 def class_rebound_programs():
     out = []
+    for i, tmpl in enumerate(CLASS_SHADOW):
+        for name in ('eval', 'exec', 'locals', 'globals', 'vars'):
+            base = 'def other_function(first_parameter):\n    second_value = first_parameter\n    return second_value, second_value\n'
+            out.append(('class-shadow:%d:%s' % (i, name), tmpl.format(N=name, P=base), base))
     for i, tmpl in enumerate(CLASS_REBOUND):
         for name in ('eval', 'exec', 'locals', 'globals', 'vars'):
             base = 'def other_function(first_parameter):\n    second_value = first_parameter\n    return second_value, second_value\n'
@@ -251,6 +268,80 @@ def taint_correspondence(ctx, progs, found_by):
     ctx.stage('taint-correspondence:' + found_by, modules=len(meta), lookups=lookups, tainted=tainted, diffs=diffs)
 
 
+# ---- the syntactic taint sources against their Lean model (PMV.TaintSyntax; theorems T09.5) ----
+
+IMPORT_FORMS = [
+    'import timeit\n', 'import timeit as clock_module\n', 'import timeit.sub_module\n', 'import os, timeit\n', 'from timeit import default_timer\n',
+    'from package_name import timeit\n', 'from package_name import timeit as other_name\n', 'import timeit_helpers\n', 'import package_name.timeit\n',
+    'from os import *\n', 'from . import *\n', 'from .timeit import name_one\n', 'import os.path as timeit\n', 'from package_name import name_one, timeit\n',
+]
+IMPORT_PLACES = [
+    '{I}', 'def some_function():\n    {I}', 'class SomeClass:\n    {I}', 'class SomeClass:\n    def method_one(self):\n        if self:\n            {I}',
+    'try:\n    pass\nexcept ImportError:\n    {I}', 'try:\n    pass\nfinally:\n    {I}', 'for loop_item in ():\n    pass\nelse:\n    {I}',
+    'while False:\n    {I}', 'with some_context:\n    {I}', 'match subject_value:\n    case 1:\n        pass\n    case _:\n        {I}',
+    'async def coroutine_function():\n    async with some_context:\n        async for loop_item in source_value:\n            {I}',
+    'def outer_function():\n    class InnerClass:\n        try:\n            pass\n        except* ValueError:\n            {I}',
+]
+DECLARED_FORMS = [
+    'def trigger_function():\n    global {N}\n    return {N}\n', 'def trigger_function():\n    global {N}\n', 'global {N}\n', 'value_one = {N}\n',
+    'def trigger_function():\n    global {N}\n    {N} = 1\n', 'def trigger_function():\n    global {N}\n    del {N}\n',
+    'def trigger_function():\n    global {N}\n    return {N}\nimport {N}\n', 'def trigger_function():\n    global {N}\n    return {N}\ndef {N}():\n    pass\n',
+    'class SomeClass:\n    global {N}\n    attribute_one = {N}\n', 'def trigger_function():\n    global {N}, other_name\n    other_name = {N}\n',
+    'def first_function():\n    global {N}\ndef second_function():\n    global {N}\n    for {N} in ():\n        pass\n',
+]
+
+
+def syntactic_taint_programs():
+    out = []
+    for i, place in enumerate(IMPORT_PLACES):
+        for j, form in enumerate(IMPORT_FORMS):
+            if '*' in form and i != 0:
+                continue        # `import *` is only allowed at module level
+            out.append(('import%d@%d' % (j, i), place.format(I=form)))
+    for j, form in enumerate(DECLARED_FORMS):
+        for name in ('eval', 'exec', 'locals', 'globals', 'vars', 'print', 'some_name'):
+            out.append(('declared%d:%s' % (j, name), form.format(N=name)))
+    return out
+
+
+def syntactic_taint_correspondence(ctx, progs, found_by):
+    """module.tainted after bind_names = PMV.TaintSyntax.taintedByImports of the module; is_only_declared of every module binding
+    and the verdict of the loop in minify() = the model's, on the kinds of the binding's references"""
+    import taint_corr
+    reqs, meta = [], []
+    for ident, src in progs:
+        try:
+            compile(src, '<c09>', 'exec', dont_inherit=True)
+            ireq, before, dreq, flags, loop = taint_corr.syntactic_requests(src)
+        except (SyntaxError, RecursionError):
+            continue
+        except Exception as e:
+            if e.__class__.__name__ == 'OutOfModel':
+                continue
+            ctx.add_broken('correspondence', 'taint.syntactic:' + ident, 'could not observe bind_names / is_only_declared: %s: %s' % (e.__class__.__name__, str(e)[:200]))
+            continue
+        reqs += [ireq, dreq]
+        meta.append((ident, src, before, flags, loop))
+    answers = ctx.driver.ask(reqs) if reqs else []
+    diffs = by_import = by_decl = bindings = 0
+    for k, (ident, src, before, flags, loop) in enumerate(meta):
+        ctx.count()
+        ai, ad = answers[2 * k], answers[2 * k + 1]
+        by_import += int(before)
+        by_decl += int(loop)
+        bindings += len(flags)
+        if before or loop:
+            ctx.mark_nontrivial('syntactic-taint:' + ident)
+        if ai != 'ok %d' % int(before):
+            diffs += 1
+            ctx.add_broken('correspondence', 'taint.imports:' + ident, 'module.tainted is %r after bind_names, the model (PMV.TaintSyntax) answers %r, in %r' % (before, ai[:40], src[:300]))
+        expect = 'ok ' + ''.join('1' if f else '0' for f in flags) + ' ' + ('1' if loop else '0')
+        if ad != expect:
+            diffs += 1
+            ctx.add_broken('correspondence', 'taint.declared:' + ident, 'is_only_declared per binding / loop verdict: implementation %r, model %r, in %r' % (expect[3:], ad[:80], src[:300]))
+    ctx.stage('syntactic-taint-correspondence:' + found_by, modules=len(meta), bindings=bindings, tainted_by_imports=by_import, tainted_by_declaration=by_decl, diffs=diffs)
+
+
 def control_group(ctx):
     """Shadowed trigger names are not taint triggers: renaming must still happen (keeps the oracle honest)."""
     src = ('def eval(arg):\n    return arg\ndef locals():\n    return {}\n'
@@ -277,6 +368,8 @@ def run(ctx):
     taint_correspondence(ctx, [(i, p) for i, p, _b in progs[:ctx.scale(250, 4000)]] + [(i, p) for i, p, _b in every_binding_programs()]
                          + [(i, p) for i, p, _b, _k in rebound_programs()] + [(i, p) for i, p, _b in class_rebound_programs()]
                          + [(i, b) for i, _p, b in progs[:ctx.scale(60, 800)]], 'generated')
+    syntactic_taint_correspondence(ctx, syntactic_taint_programs() + [(i, p) for i, p, _b in progs[:ctx.scale(150, 3000)]] + [(i, p) for i, p, _b in every_binding_programs()]
+                                   + [(i, p) for i, p, _b, _k in rebound_programs()], 'generated')
     control_group(ctx)
     for k in ctx.known:
         if k.get('replay_source'):
@@ -285,7 +378,9 @@ def run(ctx):
 
 
 def search(ctx):
-    run_programs(ctx, tainted_programs(ctx, 3000), rc.RENAME_OPTION_SETS, 'search')
+    run_programs(ctx, class_rebound_programs() + every_binding_programs() + [(i, p, b) for i, p, b, _k in rebound_programs()], rc.RENAME_OPTION_SETS, 'search')
+    if not ctx.violations:
+        run_programs(ctx, tainted_programs(ctx, 3000), rc.RENAME_OPTION_SETS, 'search')
 
 
 def replay(ctx, data):
